@@ -87,6 +87,8 @@ ASSUMED = {
 }
 GEN = os.path.join(os.path.dirname(__file__), "..", "..", "gen", "std_panics.json")
 
+POSITIVE_CONTROLS = [("R03.5", "recursion"), ("R03.2", "assert_macros")]
+
 
 def run(ctx):
     ctx.rule("R03.1", "one receive per try_read, one write per try_write, neither on a cycle of the inlined call graph; nothing else touches the stream")
@@ -500,14 +502,20 @@ def panics(ctx, typestate_ok, body_inv_ok=False):
         ctx.fail("R03.2", "callee|unclassified|%s" % u, "%s shares its name with a std function documented to panic and is not classified by the checker (fail closed)" % u)
     ctx.ob("R03.2", "callees|classified", total >= 80, "%d distinct external callees inspected (floor 80), %d unclassified-and-suspicious" % (total, len(unknown)))
     ctx.note("axioms used: %s" % sorted(pa.trusted))
-    # the explicit assert macros of the crate (none expected outside tests)
-    n_assert_macro = 0
-    for fn in facts.fns.values():
+    assert_macros(ctx)
+
+
+def assert_macros(ctx):
+    """assert!/assert_eq!/panic! written in non-test code (none expected)."""
+    n = 0
+    for fn in ctx.facts.fns.values():
         for bb, t in fn.calls():
             p = t["callee"].get("path") or ""
-            if p.startswith("core::panicking::assert"):
-                n_assert_macro += 1
-    ctx.ob("R03.2", "no-assert-macros", n_assert_macro == 0, "%d assert!/assert_eq! in non-test code" % n_assert_macro)
+            sp = t["span"].get("exp") or ""
+            if p.startswith("core::panicking::assert") or (p.startswith("core::panicking::panic") and sp in ("macro:assert", "macro:assert_eq", "macro:assert_ne", "macro:panic", "macro:debug_assert")):
+                n += 1
+                ctx.fail("R03.2", "assert-macro|%s" % fn.name, "%s contains an %s in non-test code: a reachable panic" % (fn.name, sp or p), fn.loc(bb))
+    ctx.ob("R03.2", "no-assert-macros|scanned", True, "%d assert!/panic! macro sites in non-test code" % n)
 
 
 def unwrap_under_request_ready(ctx, loopfn):
